@@ -1,9 +1,58 @@
-import LLTD.Model.Event
-import LLTD.Spec.Block
+/-
+  C17 — Interfaces are isolated from each other, also when served concurrently.
+
+  Sequential clause: the model keeps one record per interface context and a handler is given only the record,
+  attribute set and buffer image of its own interface, so isolation of the *model* is structural; that the C
+  code's global list realises this is validated by the correspondence runs on interleaved two-interface histories
+  (the model has no global list to get wrong — see `seq_isolation` for what is actually stated).
+  Thread clause: the six schedules of the two-segment insertion, decided exhaustively.
+-/
+import LLTD.Model.Race
+import LLTD.Model.Block
 
 namespace LLTD.C17
-open LLTD LLTD.Spec
+open LLTD LLTD.Race
 
-theorem placeholder_layout : X.sizeofDemux = 32 := by decide
+/-! ## Sequential clause -/
+
+/-- two interface records; `rxOn i` handles a frame on interface i -/
+structure Two where
+  st0 : Option St
+  st1 : Option St
+  w   : World
+
+def rxOn (c0 c1 : Cfg) (g : Glob) (s : Two) (i : Bool) (img : List Nat) : Two × List Fx :=
+  if i then
+    let r := parseFrame c1 g s.w s.st1 img
+    ({ s with st1 := r.1, w := r.2.1 }, r.2.2.1)
+  else
+    let r := parseFrame c0 g s.w s.st0 img
+    ({ s with st0 := r.1, w := r.2.1 }, r.2.2.1)
+
+/-- handling a frame on one interface leaves the other interface's record untouched -/
+theorem other_untouched (c0 c1 : Cfg) (g : Glob) (s : Two) (img : List Nat) :
+    (rxOn c0 c1 g s false img).1.st1 = s.st1 ∧ (rxOn c0 c1 g s true img).1.st0 = s.st0 := by
+  unfold rxOn; exact ⟨rfl, rfl⟩
+
+/-- what a handler does to its own record and what it transmits is a function of that record, the interface's
+    attributes, the frame and the state of the allocator only — in particular not of the other interface's record -/
+theorem own_reaction_independent (c0 c1 : Cfg) (g : Glob) (s s' : Two) (img : List Nat)
+    (h0 : s.st0 = s'.st0) (hw : s.w = s'.w) :
+    (rxOn c0 c1 g s false img).2 = (rxOn c0 c1 g s' false img).2 ∧
+    (rxOn c0 c1 g s false img).1.st0 = (rxOn c0 c1 g s' false img).1.st0 := by
+  unfold rxOn; simp only [h0, hw, Bool.false_eq_true, if_false]; exact ⟨trivial, trivial⟩
+
+/-! ## Thread clause -/
+
+/-- there IS a schedule of two threads seeing their first frame together that loses an interface's state -/
+theorem race_witness : ∃ s ∈ schedules, lost s ≠ [] := by decide
+
+/-- exactly the four schedules in which both threads complete segment 1 before either completes segment 2 lose a
+    record — the one whose `head := node` is overwritten -/
+theorem lost_table : schedules.map lost = [[], [0], [1], [0], [1], []] := by decide
+
+/-- with the insertion atomic (both segments under one lock) no order of the two threads loses anything -/
+theorem locked_ok : (found (runLocked [0, 1]) 0 = true ∧ found (runLocked [0, 1]) 1 = true) ∧
+    (found (runLocked [1, 0]) 0 = true ∧ found (runLocked [1, 0]) 1 = true) := by decide
 
 end LLTD.C17
